@@ -11,6 +11,9 @@ def main():
     modname = sys.argv[1]
     job = json.loads(sys.stdin.read() or "{}")
     common.assert_repo_sources()
+    import logging
+
+    logging.disable(logging.CRITICAL)  # the checks read monitors, not logs
     try:
         mod = importlib.import_module("pv.checks." + modname)
         res = mod.worker(job)
